@@ -8,6 +8,7 @@ import (
 	"net/http"
 	"net/http/httptest"
 	"runtime/debug"
+	"sync"
 	"sync/atomic"
 	"time"
 
@@ -37,13 +38,14 @@ type UniverseSpec struct {
 
 // Config selects the gateway configuration.
 type Config struct {
-	Merger     string `json:"merger"`      // "" | "sanitize"
-	Hint       bool   `json:"hint"`        // WithGetParentTypeFromIDFunc
-	Planner    string `json:"planner"`     // "" | "cached"
-	TTLms      int    `json:"ttl_ms"`      // cache ttl
-	Introspect string `json:"introspect"`  // "" (exact) | "e2e"
-	MaxBatch   int    `json:"max_batch"`   // 0: default factory (3000 over http.DefaultClient)
-	WriteGapUs int    `json:"write_gap_us,omitempty"` // websocket rigs: pause after every short write (a frame header) on gateway->client connections
+	Merger        string `json:"merger"`                   // "" | "sanitize"
+	Hint          bool   `json:"hint"`                     // WithGetParentTypeFromIDFunc
+	Planner       string `json:"planner"`                  // "" | "cached"
+	TTLms         int    `json:"ttl_ms"`                   // cache ttl
+	Introspect    string `json:"introspect"`               // "" (exact) | "e2e"
+	MaxBatch      int    `json:"max_batch"`                // 0: default factory (3000 over http.DefaultClient)
+	SharedQueryer bool   `json:"shared_queryer,omitempty"` // with MaxBatch: the factory returns one MultiOpQueryer per service for all operations
+	WriteGapUs    int    `json:"write_gap_us,omitempty"`   // websocket rigs: pause after every short write (a frame header) on gateway->client connections
 }
 
 func (c Config) String() string {
@@ -63,17 +65,17 @@ var rigSeq int64
 
 // Rig is a gateway + its fake services.
 type Rig struct {
-	Spec     UniverseSpec
-	Cfg      Config
-	Services []*fake.Service
-	URLs     []string
-	Mono     *ast.Schema
-	Data     *gen.Data
-	Log      *fake.Log
-	GW       *pebbles.Gateway
-	Merged   *merger.MergeResult
-	PlanCnt  *int64
-	planner  planner.Planner
+	Spec      UniverseSpec
+	Cfg       Config
+	Services  []*fake.Service
+	URLs      []string
+	Mono      *ast.Schema
+	Data      *gen.Data
+	Log       *fake.Log
+	GW        *pebbles.Gateway
+	Merged    *merger.MergeResult
+	PlanCnt   *int64
+	planner   planner.Planner
 	Upstreams []*fake.WSUpstream
 	Server    *httptest.Server
 }
@@ -212,7 +214,22 @@ func (r *Rig) StartGateway(urls []string) (err error) {
 		r.planner = countingPlanner{sp, &n}
 	}
 	opts = append(opts, pebbles.WithPlanner(r.planner))
-	if cfg.MaxBatch > 0 {
+	if cfg.MaxBatch > 0 && cfg.SharedQueryer {
+		// one long-lived downstream client per service, handed to every operation (a custom factory may do that)
+		mb := cfg.MaxBatch
+		var qmu sync.Mutex
+		shared := map[string]queryer.Queryer{}
+		opts = append(opts, pebbles.WithQueryerFactory(func(ctx *planner.PlanningContext, url string) queryer.Queryer {
+			qmu.Lock()
+			defer qmu.Unlock()
+			if q, ok := shared[url]; ok {
+				return q
+			}
+			q := queryer.NewMultiOpQueryer(url, mb).WithHTTPClient(&http.Client{Transport: fake.Global})
+			shared[url] = q
+			return q
+		}))
+	} else if cfg.MaxBatch > 0 {
 		mb := cfg.MaxBatch
 		opts = append(opts, pebbles.WithQueryerFactory(func(ctx *planner.PlanningContext, url string) queryer.Queryer {
 			return queryer.NewMultiOpQueryer(url, mb).WithHTTPClient(&http.Client{Transport: fake.Global}).WithContext(ctx.Request.Original.Context())
@@ -240,11 +257,11 @@ func (r *Rig) Close() {
 
 // HTTPResult is the outcome of one request through Gateway.Handler.
 type HTTPResult struct {
-	Status   int
-	Body     []byte
-	Header   http.Header
-	Panic    any
-	Stack    string
+	Status int
+	Body   []byte
+	Header http.Header
+	Panic  any
+	Stack  string
 }
 
 // Do sends one raw POST to the gateway handler (in-process recorder).
